@@ -301,6 +301,7 @@ func VerifTrackerHistory() {
 						continue // younger than (or exactly at) the cut-off: must survive
 					}
 					if verifrt.TimeLE(s.addedHi, ct) && !verifrt.TimeLE(ct, s.addedHi) {
+						verifrt.Reach("c16.session-discarded")
 						s.dropped = true // strictly older: must be discarded
 						s.held = nil
 						continue
@@ -314,6 +315,7 @@ func VerifTrackerHistory() {
 			for _, lg := range logins {
 				if lg.arrived && !lg.dropped && lg.bound < 0 {
 					if lg.loggedT < cut {
+						verifrt.Reach("c16.login-discarded")
 						lg.dropped = true
 					}
 				}
@@ -334,6 +336,14 @@ func VerifTrackerHistory() {
 			}
 			continue
 		}
+		if cleanup {
+			// C16: what is released depends on the window rule only - held events of a discarded
+			// session never come out late, survivors are still correlated
+			verifrt.Assert("c16.emissions-follow-window-rule", len(got) == len(expect))
+			if len(expect) > 0 {
+				verifrt.Reach("c16.correlated-despite-cleanup")
+			}
+		}
 		verifrt.Assert("c02.count", len(got) == len(expect))
 		verifrt.Assert("c04.nothing-uncorrelated", verifrt.Or(len(expect) > 0, len(got) == 0))
 		if len(got) != len(expect) {
@@ -347,6 +357,9 @@ func VerifTrackerHistory() {
 			verifrt.Assert("c01.type", e.Type == common.ActionUserAction)
 			verifrt.Assert("c01.session", e.Metadata.AuditID == sess[expectSess].sid)
 			verifIdentityIs("c01.identity", e, expectLogin)
+			if cleanup {
+				verifIdentityIs("c16.identity", e, expectLogin)
+			}
 			if reuse && expectLogin == 1 {
 				verifrt.Reach("trk.second-generation-emitted")
 				verifIdentityIs("c09.new-identity", e, expectLogin)
